@@ -215,6 +215,8 @@ where
     W: From<Object<Manager>> + DerefMut<Target = MultiplexedConnection> + Send + 'static,
 {
     INSTALL.call_once(|| {
+        // PoolConfig::default() would read /proc/cpuinfo for every pool
+        deadpool_runtime::verif::set_physical_cpus(4);
         let _ = deadpool_redis::verif::install(world::connector);
     });
     let rt = tokio::runtime::Builder::new_current_thread()
